@@ -476,6 +476,22 @@ JudgeMnParse(e) ==
   LET p == ParsePhrase(StrToCps(e.in.text))
   IN  [cls |-> p.c, devs |-> CrashDevs(e.out) \cup MnParseDevs(e.out, p, {"C01"})]
 
+\* mnemonic.sweep : in = [count, seed, pos]   out.ok = [tried, accepted = <<tokens>>]
+\* a run-length directive: `count` phrases "abandon x 11 about" with a pseudo-random lower-case token at position
+\* pos; every token that made the phrase parse must make it a valid phrase by the specification as well
+SweepPhrase(tok, pos) ==
+  LET RECURSIVE go(_)
+      go(i) == IF i > 12 THEN "" ELSE (IF i = 1 THEN "" ELSE " ") \o (IF i = pos THEN tok ELSE IF i = 12 THEN "about" ELSE "abandon") \o go(i + 1)
+  IN  go(1)
+JudgeMnSweep(e) ==
+  LET o == e.out IN
+  [cls |-> "accept",
+   devs |-> CrashDevs(o) \cup
+     (IF ~IsOk(o) THEN {D({"C01"}, "sweep_failed", "")}
+      ELSE (IF o.ok.tried # e.in.count THEN {D({"C01"}, "sweep_incomplete", "")} ELSE {})
+           \cup {D({"C01"}, "accepted_unknown_word", o.ok.accepted[k]) :
+                   k \in {q \in 1..Len(o.ok.accepted) : ParsePhrase(StrToCps(SweepPhrase(o.ok.accepted[q], e.in.pos))).c = "reject"}})]
+
 \* mnemonic.seed : in = [text, pass]   out.ok = [seed]
 JudgeMnSeed(e) ==
   LET o == e.out
@@ -529,6 +545,7 @@ JudgeEvent(e) ==
          [] e.op = "tx.encode" -> JudgeTxEncode(e)
          [] e.op = "mnemonic.parse"  -> JudgeMnParse(e)
          [] e.op = "mnemonic.seed"   -> JudgeMnSeed(e)
+         [] e.op = "mnemonic.sweep"  -> JudgeMnSweep(e)
          [] e.op = "mnemonic.random" -> JudgeMnRandom(e)
          [] e.op = "path.parse"      -> JudgePathParse(e)
          [] e.op = "path.for_index"  -> JudgeForIndex(e)
